@@ -63,3 +63,10 @@ PROPS["C09"] = dict(
     generators=[dict(name="C09", quick=400, thorough=40000)],
     harness=["impl"],
 )
+
+PROPS["C11"] = dict(
+    modules=["Proofs.C11"],
+    theorems=[],
+    generators=[dict(name="C11", quick=40, thorough=3000)],
+    harness=["impl"],
+)
